@@ -32,6 +32,8 @@ static std::string tail(const std::vector<std::string>& trace, size_t n = 40) {
 // DAryHeap element variants
 
 struct Item { int prio; int id; };
+VERIF_MISLEADING_ORDER(Item, prio)
+VERIF_MISLEADING_EQUALITY(Item, prio)
 
 struct VarIntLess {
     typedef int key_type; typedef std::less<int> compare;
